@@ -1,3 +1,3 @@
-import BB.Driver.Util
-/-! Placeholder driver for C03 (replaced when the model is built). -/
-def main : IO Unit := BB.Driver.loop (fun (s : Unit) _ => (s, "unimplemented")) ()
+import BB.Driver.PersistCommon
+/-! Driver of property C03: the persistence model (`BB.Persist`), see `BB.Driver.PersistCommon`. -/
+def main : IO Unit := BB.Driver.loop BB.Driver.PersistCommon.step2 ({}, none)
